@@ -11,6 +11,12 @@ from vcommon import REPO, base_env  # noqa: E402
 _driver = None
 
 
+def _scratch():
+    d = os.environ.get("ABRA_VERIF_SCRATCH", "/var/tmp")
+    os.makedirs(d, exist_ok=True)
+    return d
+
+
 def driver():
     global _driver
     if _driver is None:
@@ -199,7 +205,7 @@ class Program:
 
 def compile_source(src, extra_files=None, no_opt=False):
     """Compile Abra source with the real compiler (through the driver). Returns Program."""
-    d = tempfile.mkdtemp(prefix="abra_src_", dir=os.environ.get("ABRA_VERIF_SCRATCH", "/var/tmp"))
+    d = tempfile.mkdtemp(prefix="abra_src_", dir=_scratch())
     try:
         open(os.path.join(d, "main.abra"), "w").write(src)
         for k, v in (extra_files or {}).items():
@@ -222,7 +228,7 @@ def compile_source(src, extra_files=None, no_opt=False):
 
 def check_source(src, extra_files=None):
     """Run the real checker only. Returns (ok, diagnostics text)."""
-    d = tempfile.mkdtemp(prefix="abra_src_", dir=os.environ.get("ABRA_VERIF_SCRATCH", "/var/tmp"))
+    d = tempfile.mkdtemp(prefix="abra_src_", dir=_scratch())
     try:
         open(os.path.join(d, "main.abra"), "w").write(src)
         for k, v in (extra_files or {}).items():
@@ -242,7 +248,7 @@ def check_source(src, extra_files=None):
 def run_source(src, extra_files=None, budget=1000, no_opt=False, max_steps=5_000_000):
     """Run on the real VM. Returns dict(status, output, top, steps, error)."""
     import json
-    d = tempfile.mkdtemp(prefix="abra_src_", dir=os.environ.get("ABRA_VERIF_SCRATCH", "/var/tmp"))
+    d = tempfile.mkdtemp(prefix="abra_src_", dir=_scratch())
     try:
         open(os.path.join(d, "main.abra"), "w").write(src)
         for k, v in (extra_files or {}).items():
